@@ -13,6 +13,7 @@ EXPLANATION = ('Static rules on scheduler.rs: H1 OnceTask/FutureTask call their 
                'task can no longer act; H6 all schedule impls are instances of one macro. H4 repeating tasks tick only after a Ready period timer that is re-armed with the period each time, count seq by +1 and stop when the task declines (same rules as C08.I1/I2, C16.E3). '
                'H7 task handles registered with a MultiSubscription are let go only by unsubscribing them (same rule as C17.K6), so a cancelled pipeline cannot leave a task that still starts. '
                'H8 a stored task handle is overwritten only when it is known to be absent or closed, or after it was taken out and unsubscribed: dropping a TaskHandle does not cancel its task, so an overwritten pending handle leaves a task that unsubscribe() can no longer reach. '
+               'H9 the _at sources hand the scheduler exactly deadline - now as the delay (same rule as C07.T2), so a repeating task cannot start before the requested instant. '
                'Does not decide virtual-time run orders.')
 ASSUMPTIONS = ['the timer future returned by new_timer completes no earlier than its duration (trusted dependency)']
 
@@ -35,6 +36,11 @@ def check(cx):
     if not cx.control:
         res += h2(cx) + h5(cx) + h6(cx) + h4(cx) + h7(cx)
     res += h8(cx)
+    if not cx.control:
+        from . import c07
+        for f in c07.t2(cx):
+            if f.key.startswith(('observable::interval::', 'observable::timer::')):
+                res.append(Finding(ID, 'H9', f.key, f.ok, f.msg, f.loc, f.witness))
     return res
 
 
